@@ -308,6 +308,23 @@ def check_ctor(case):
     inner = any(SCH.ctor(n).inner_comment for n in info['ctors'])
     fails = []
 
+    # every 5th case runs with the library's trace logging switched ON (logger 'TL' at level 5, output discarded): what is logged
+    # must not change what is computed
+    import logging as _logging
+    _lg = _logging.getLogger('TL')
+    _old_level, _trace = _lg.level, (len(exp) % 5 == 0)
+    if _trace:
+        if not any(isinstance(h_, _logging.NullHandler) for h_ in _lg.handlers):
+            _lg.addHandler(_logging.NullHandler())
+        _lg.propagate = False
+        _lg.setLevel(5)
+    try:
+        return _check_ctor_body(case, name, info, ref, lib, pieces, exp, inner, fails, g, schemas)
+    finally:
+        _lg.setLevel(_old_level)
+
+
+def _check_ctor_body(case, name, info, ref, lib, pieces, exp, inner, fails, g, schemas):
     # (a) serialisation equals the TL encoding
     sch = schemas.get_by_name(name)
     if sch is None:
@@ -515,6 +532,13 @@ def check_blockid(case):
         y = None
     elif not (y == x) or fields(y) != fields(x):
         fails.append(Fail('blockidext/bytes-roundtrip-differs', f'{y!r} != {x!r}'))
+    # from_dict gets the caller's dictionary (as the parser returns it, '@type' included): read, not edited
+    import copy as _copy
+    for cls_, dct in ((BlockIdExt, dict(x.to_dict(), **{'@type': 'tonNode.blockIdExt'})), (BlockId, {'@type': 'tonNode.blockId', 'workchain': wc, 'shard': eff_shard, 'seqno': seqno})):
+        before = _copy.deepcopy(dct)
+        okd, _o = call(cls_.from_dict, dct)
+        if okd and dct != before:
+            fails.append(Fail('blockid/from_dict-edits-the-callers-dictionary', f'{cls_.__name__}: {sorted(before)} -> {sorted(dct)}'))
     ok, z = call(lambda: BlockIdExt.from_dict(x.to_dict()))
     if not ok:
         fails.append(Fail(f'blockidext/dict-roundtrip-raises/{exc_sig(z)}', repr(z)))
@@ -797,6 +821,18 @@ def enum_id_prefixes(tier):
             yield {'ctor': host, 'v': {'@type': host, fld: {'x': payload.hex(), 'fill': '00', 'rep': 0}}}
 
 
+def enum_huge_strings(tier):
+    """byte and text strings whose 3-byte length has its top bit set (2^23 .. 2^24 - 1 bytes) and their neighbours"""
+    hosts = [('adnl.message.custom', 'data', 'blob'), ('liteServer.error', 'message', 'text')]
+    for n in (2 ** 23 - 1, 2 ** 23, 2 ** 23 + 5, 2 ** 24 - 1) if tier != 'quick' else (2 ** 23 - 1, 2 ** 23, 2 ** 24 - 4):
+        for host, fld, kind in hosts:
+            if host not in SUPPORTED_SET:
+                continue
+            tree = gen_obj(FixedChooser('min'), host, 0, False, bit31=False)
+            tree[fld] = {'x': '41', 'fill': '42', 'rep': n - 1} if kind == 'blob' else {'s': 'A', 'fill': 'b', 'rep': n - 1}
+            yield {'ctor': host, 'v': tree}
+
+
 def enum_flags(tier):
     cap = 64 if tier == 'quick' else 4096
     for name in SUPPORTED:
@@ -897,6 +933,8 @@ SUBCHECKS = [
         note='every constructor with conditional fields x every combination of its flag bits (capped 64 / 4096)'),
     Sub('bytes-that-begin-like-a-constructor-id', check_ctor, enum=enum_id_prefixes, classify=classify, nontrivial=nontrivial, shards=(8, 16),
         note='1..3-byte (and 4..7-byte) opaque payloads sharing their first bytes with every known constructor id (quick: every 4th id)'),
+    Sub('strings-of-8-to-16-MiB', check_ctor, enum=enum_huge_strings, classify=classify, nontrivial=nontrivial, shards=(6, 8), case_cpu_s=120,
+        note='lengths 2^23-1, 2^23, 2^24-4 (thorough: 2^23+5, 2^24-1): the 3-byte length field with its top bit set'),
     Sub('random', check_ctor, strategy=strat_random, classify=classify, nontrivial=nontrivial,
         n=(12000, 600000), shards=(16, 48)),
     Sub('string-framing', check_ctor, strategy=strat_strings, classify=classify, nontrivial=nontrivial,
